@@ -285,9 +285,9 @@ def gen_cases(p, refs, quick, rng):
     add("pristine", "-", "-")
     # truncation at every prefix length (quick: around every section / array boundary and a coarse grid)
     if quick:
-        cuts = set(range(0, p.total, 97))
+        cuts = set(range(0, p.total, 211))
         for b in p.boundaries():
-            for d in (-9, -8, -4, -1, 0, 1, 4, 8):
+            for d in (-8, -1, 0, 1):
                 if 0 <= b + d < p.total:
                     cuts.add(b + d)
     else:
@@ -303,11 +303,11 @@ def gen_cases(p, refs, quick, rng):
     # size fields
     args = p.sname[:p.sname.index(MAKE_ARGS_END)]
     for n, v in p.sizes:
-        cand = [-1, 0, v - 1, v + 1, v + 2, 2 * v + 3, 2 ** 31, 2 ** 62, -2 ** 62]
+        cand = [-1, v + 1, 2 ** 31, 2 ** 62] if quick else [-1, 0, v - 1, v + 1, v + 2, 2 * v + 3, 2 ** 31, 2 ** 62, -2 ** 62]
         if n not in args:
-            cand += [INT_MAX, 10 ** 6 + 7]
-        if n in ("ntexdata", "ntextdata"):
-            cand = [-1, 0, v - 1, v + 1, v + 2, 2 ** 62, -2 ** 62]          # byte arrays: no INT_MAX cap in the loader
+            cand += [INT_MAX] if quick else [INT_MAX, 10 ** 6 + 7]
+        if n in ("ntexdata", "ntextdata"):                                   # byte arrays: no INT_MAX cap in the loader
+            cand = [-1, v + 1, 2 ** 62] if quick else [-1, 0, v - 1, v + 1, v + 2, 2 ** 62, -2 ** 62]
         seen = set()
         for x in cand:
             if x == v or x in seen:
@@ -328,6 +328,8 @@ def gen_cases(p, refs, quick, rng):
     # argument sizes changed by one with derived fields and length made consistent (arrays move)
     for n in args:
         v = p.sval[n]
+        if quick and v == 0 and rng.random() < 0.7:
+            continue
         for x in ([v + 1] if quick else [v + 1, v + 2]) + ([v - 1] if v > 0 else []):
             if n == "nbody" and x == 0:
                 continue
@@ -342,10 +344,10 @@ def gen_cases(p, refs, quick, rng):
     for ri, (rec, arr, k0, checked) in enumerate(refs):
         n = p.sval[p.sname[rec["tgt"] - 1]]
         ents = list(range(len(rec["vals"])))
-        if len(ents) > 4:
-            ents = ents[:2] + [ents[len(ents) // 2], ents[-1]] if quick else ents[:3] + ents[-3:]
+        if len(ents) > 2:
+            ents = [ents[0], ents[-1]] if quick else ents[:3] + ents[-3:]
         for k in sorted(set(ents)):
-            for x in (-1, -2, n, n + 1, INT_MAX, -2 ** 31 + 1) + (() if quick else (n - 1, 0)):
+            for x in (-1, -2, n, INT_MAX) + (() if quick else (n + 1, -2 ** 31 + 1, n - 1, 0)):
                 if x == rec["vals"][k]:
                     continue
                 add("ref" if checked else "ref-unchecked", rec["name"], vclass(x, n),
@@ -372,7 +374,7 @@ def world_json(p, refs, cases):
     return {
         "hdr": 20, "structs": p.structs, "mapmul": 2, "mapsrc": [p.sidx[n] for n in MAP_SRC],
         "imap": p.sidx["nnames_map"], "inbuf": p.sidx["nbuffer"], "inbody": p.sidx["nbody"],
-        "sizes": [{"name": n, "val": v, "cls": cls(n)} for n, v in p.sizes],
+        "sizes": [{"name": n, "val": v, "cls": cls(n)} for n, v in p.sizes], "pvals": [v for _n, v in p.sizes],
         "arrays": [{"el": a[1], "rows": p.sidx[a[2]], "cc": a[3], "cv": p.sidx[a[4]] if a[4] else 0} for a in p.arrays],
         "refs": [{"tgt": r[0]["tgt"], "opt": r[0]["opt"], "vals": r[0]["vals"], "nums": r[0]["nums"]} for r in refs],
         "cases": [c["spec"] for c in cases],
@@ -450,7 +452,8 @@ def run_impl(exe, cmds, cwd, nmodel_cmds_prefix):
             break
         if not r.crashed:
             raise Machinery("harness stopped answering: %r" % lines[done:done + 2])
-        summ = [x for x in r.err.split("\n") if "SUMMARY" in x or "runtime error" in x]
+        summ = [x for x in lines[done:] if x.startswith("HANG")] or \
+               [x for x in r.err.split("\n") if "SUMMARY" in x or "runtime error" in x]
         out[start + done] = ("crash", (summ[0] if summ else r.crash_text())[:300])
         start += done + 1
     return out
@@ -470,7 +473,7 @@ def run(ctx):
                "mju_openResource + mj_loadModelBuffer sequence")
     spec = os.path.join(TLA, "MjbFile.tla")
     res = tlc.run(spec, os.path.join(TLA, "MjbFile_MC.cfg"), coverage=True, timeout=900)
-    ctx.tlc_ok(res, "MjbFile_MC", need_actions=["Start", "ReadHeader", "ReadSizes", "Make", "CheckNbuffer", "SetSizes",
+    ctx.tlc_ok(res, "MjbFile_MC", need_actions=["Pick", "Prepare", "ReadHeader", "ReadSizes", "Make", "CheckNbuffer", "SetSizes",
                                                 "ReadStructs", "ReadArrays", "CheckEnd", "Validate"])
     mc_finished = bool(res.finished)
     # the loader as written (nnames_map taken from the file after the buffer was sized): TLC must find the overflow
@@ -532,6 +535,8 @@ def run(ctx):
         total_cases = 0
         acc_info = {"accepted_minus_one_survives": 0, "accepted_unchecked_survives": 0, "exercise_failures_uninterpreted": 0}
         for name, p in pools.items():
+            if ctx.quick and name == "arm":
+                continue                      # quick tier: damaged images of the richest and the smallest model only
             refs = spec_refs(p)
             cases = gen_cases(p, refs, ctx.quick, rng)
             outs = tlc_real(ctx, p, refs, cases, tmp)
